@@ -111,6 +111,8 @@ func RunJob(job *Job, out io.Writer) int {
 		return 0
 	case "shrink":
 		return shrinkJob(scn, job, out)
+	case "c17chain":
+		return C17ChainJob(job, out)
 	case "tape":
 		// record the tape of run job.From; values are spilled to job.SpillPath as they are drawn so that a crashing
 		// run still leaves its tape behind
